@@ -60,20 +60,27 @@ theorem recip_ok (n : Nat) (Y : PB) (hY : WF n Y) (z : ZeroFree Y) :
   · obtain ⟨w, hS'⟩ := flipB_wf _ _ antiInv_recip_pos n Y hY hS
     refine ⟨?_, w, Or.inl hS'.1, Or.inl ⟨fun v hv => le_of_lt (hS'.1 v hv), fun v hv => le_of_lt (hS'.2 v hv)⟩⟩
     unfold recip
-    rw [hasZero_false _ (fun v hv => ne_of_gt (hS.1 v hv)), hasZero_false _ (fun v hv => ne_of_gt (hS.2 v hv))]
+    rw [straddlesZero_false_pos Y hS.1 hS.2,
+      hasZero_false _ (fun v hv => ne_of_gt (hS.1 v hv)), hasZero_false _ (fun v hv => ne_of_gt (hS.2 v hv))]
     simp only [Bool.or_self, Bool.false_eq_true, if_false]
     exact mk_arr_ok n _ _ w.llen w.rlen w.lsorted w.rsorted (fun i h => w.le i (lt_of_lt_of_eq h w.llen))
   · obtain ⟨w, hS'⟩ := flipB_wf _ _ antiInv_recip_neg n Y hY hS
     refine ⟨?_, w, Or.inr hS'.2, Or.inr ⟨fun v hv => le_of_lt (hS'.1 v hv), fun v hv => le_of_lt (hS'.2 v hv)⟩⟩
     unfold recip
-    rw [hasZero_false _ (fun v hv => ne_of_lt (hS.1 v hv)), hasZero_false _ (fun v hv => ne_of_lt (hS.2 v hv))]
+    rw [straddlesZero_false_neg Y hS.1 hS.2,
+      hasZero_false _ (fun v hv => ne_of_lt (hS.1 v hv)), hasZero_false _ (fun v hv => ne_of_lt (hS.2 v hv))]
     simp only [Bool.or_self, Bool.false_eq_true, if_false]
     exact mk_arr_ok n _ _ w.llen w.rlen w.lsorted w.rsorted (fun i h => w.le i (lt_of_lt_of_eq h w.llen))
 
-/-- a zero bound makes `reciprocal` fail (numpy would produce `inf`; not representable) -/
+/-- a zero bound makes `reciprocal` fail (`ZeroDivisionError` when the support straddles zero;
+otherwise numpy would produce `inf`, not representable) -/
 theorem recip_zero_raises (n : Nat) (Y : PB) (h : (0 : Rat) ∈ Y.left ∨ (0 : Rat) ∈ Y.right) :
-    recip n Y = .error .Value := by
+    ∃ e, recip n Y = .error e := by
   unfold recip
+  by_cases hs : straddlesZero Y = true
+  · exact ⟨.ZeroDivision, by simp [hs]⟩
+  refine ⟨.Value, ?_⟩
+  simp only [hs, Bool.false_eq_true, if_false]
   have : (hasZero Y.left || hasZero Y.right) = true := by
     rcases h with h | h
     · have : hasZero Y.left = true := by
@@ -111,5 +118,24 @@ theorem div_f_onesign_good (n : Nat) (X Y : PB) (hX : WF n X) (hY : WF n Y)
   · rcases zeroFree_inS n Y hY z with hS | hS
     · exact (g.flipY _ _ antiInv_recip_pos hY.toWFS hS w.toWFS).congr (fun a b => mul_one_div a b)
     · exact (g.flipY _ _ antiInv_recip_neg hY.toWFS hS w.toWFS).congr (fun a b => mul_one_div a b)
+
+/-- **`X.div(Y, 'f')` for ANY well-formed dividend (zero-straddling included) and a zero-free divisor**:
+whatever it returns is well formed and valid for every selection and coupling -/
+theorem div_f_allValid (n : Nat) (X Y R : PB) (hX : WF n X) (hY : WF n Y) (z : ZeroFree Y)
+    (hR : div n .f X Y = .ok R) : WF n R ∧ AllValid n (· / ·) X Y R hX.toWFS hY.toWFS := by
+  obtain ⟨-, w, -, -⟩ := recip_ok n Y hY z
+  rw [div_eq_mul_recip n .f X Y hY z] at hR
+  obtain ⟨wR, v⟩ := mul_f_allValid n X (recipB Y) R hX w hR
+  refine ⟨wR, ?_⟩
+  rcases zeroFree_inS n Y hY z with hS | hS
+  · exact (v.flipY _ _ antiInv_recip_pos hY.toWFS hS w.toWFS).congr (fun a b => mul_one_div a b)
+  · exact (v.flipY _ _ antiInv_recip_neg hY.toWFS hS w.toWFS).congr (fun a b => mul_one_div a b)
+
+/-- … and it does return -/
+theorem div_f_total (n : Nat) (X Y : PB) (hX : WF n X) (hY : WF n Y) (z : ZeroFree Y) :
+    ∃ R, div n .f X Y = .ok R ∧ WF n R := by
+  obtain ⟨-, w, -, -⟩ := recip_ok n Y hY z
+  rw [div_eq_mul_recip n .f X Y hY z]
+  exact mul_f_total n X (recipB Y) hX w
 
 end Pun.PBox
